@@ -479,3 +479,133 @@ def rule_suffix_needs_digit(col, facts):
                     ok = (e[1] == "Gt" and k == ("k", 1)) or (e[1] == "Ge" and k == ("k", 2))
                     col.check(R, name, ok, "the base-suffix branch requires `cursor - start %s %s`; with the cursor already past the suffix byte, at least one digit needs `> 1`" % (e[1], show(k)), f.loc(b["ts"]))
         col.check(R, name + ":present", seen, "no digit-count guard found on the base-suffix branch", f.loc())
+
+
+# ---------------------------------------------------------------------------------------------
+def n_interval(f, bb, tmax):
+    """Range of parameter 1 (the value being written) on entry to bb, from the dominating
+    comparisons with constants."""
+    lo, hi = 0, tmax
+    for _d, e, p in path_conditions(f, bb):
+        e = strip_casts(e)
+        rhs = strip_casts(e[3]) if e[0] == "bin" else None
+        if rhs is not None and rhs[0] == "kc" and isinstance(rhs[2], int):
+            rhs = ("k", rhs[2])
+        if e[0] == "bin" and e[1] in ("Lt", "Le", "Ge", "Gt") and strip_casts(e[2])[:2] == ("arg", 1) and rhs[0] == "k" and isinstance(rhs[1], int) and isinstance(p, bool):
+            c = rhs[1]
+            op = e[1]
+            if not p:
+                op = {"Lt": "Ge", "Le": "Gt", "Ge": "Lt", "Gt": "Le"}[op]
+            if op == "Lt":
+                hi = min(hi, c - 1)
+            elif op == "Le":
+                hi = min(hi, c)
+            elif op == "Ge":
+                lo = max(lo, c)
+            elif op == "Gt":
+                lo = max(lo, c + 1)
+    return lo, hi
+
+
+def jeaiii_sites(f):
+    """(block, M, S, R, product_bits) for every `n * M` digit-extraction site of a jeaiii writer."""
+    out = []
+    for i, b in enumerate(f.blocks):
+        if not f.live(i):
+            continue
+        for st in b["s"]:
+            if st[0] == "=" and st[2][0] == "bin" and st[2][1].startswith("Mul"):
+                M = fold(f, st[2][3])
+                lhs = strip_casts(op_expr(f, st[2][2]))
+                if M is None or M <= (1 << 16) or lhs[:2] != ("arg", 1):
+                    continue
+                ty = f.locals[st[1][0]]
+                pbits = 128 if "u128" in ty else 64
+                # shift applied to the product before the 32.32 fixed-point reading
+                S = 0
+                R_loop = None
+                nexts = 0
+                for j, b2 in enumerate(f.blocks):
+                    if not f.live(j) or not f.dominates(i, j):
+                        continue
+                    for st2 in b2["s"]:
+                        if st2[0] == "=" and st2[2][0] == "bin" and st2[2][1].startswith("Shr"):
+                            k = fold(f, st2[2][3])
+                            src = strip_casts(op_expr(f, st2[2][2]))
+                            if k is not None and k != 32 and k != 0 and (src[0] == "var" or (src[0] == "bin" and src[1] == "Mul")):
+                                S = max(S, k)
+                    t2 = b2["t"]
+                    if t2["k"] == "call":
+                        cn = callee_name(t2["f"])
+                        if cn.endswith("jeaiii::next2"):
+                            nexts += 1
+                        if cn.endswith("IntoIterator::into_iter"):
+                            e = strip_casts(op_expr(f, t2["a"][0]))
+                            if e[0] == "agg" and "Range" in str(e[1]) and strip_casts(e[2][0]) == ("k", 0) and strip_casts(e[2][1])[0] == "k":
+                                R_loop = strip_casts(e[2][1])[1]
+                R = R_loop if R_loop is not None else nexts
+                out.append((i, M, S, R, pbits, st[3]))
+    return out
+
+
+def jeaiii_counterexample(M, S, D, lo, hi, cap=300000):
+    """n in [lo, hi] whose digits come out wrong: need n*2^32 <= floor(n*M/2^S)*D < (n+1)*2^32."""
+    e = M * D - (1 << (32 + S))
+    if e < 0:
+        return lo
+    def bad(n):
+        y = (n * M) >> S
+        return not (n << 32 <= y * D < (n + 1) << 32)
+    if e == 0:
+        return None if not bad(lo) and not bad(hi) else (lo if bad(lo) else hi)
+    # lower bound is guaranteed for n >= n0, upper bound for n <= n1
+    n0 = -(-((D - 1) << S) // e)
+    n1 = ((1 << (32 + S)) - 1) // e
+    cands = []
+    if n0 > lo:
+        top = min(n0, hi + 1)
+        cands.append(range(lo, min(top, lo + cap)))
+        if top - lo > cap:
+            cands.append(range(max(lo, top - cap), top))
+            step = max(1, (top - lo) // cap)
+            cands.append(range(lo, top, step))
+    if n1 < hi:
+        bot = max(n1 + 1, lo)
+        cands.append(range(max(bot, hi - cap + 1), hi + 1))
+        if hi - bot > cap:
+            cands.append(range(bot, min(hi + 1, bot + cap)))
+            step = max(1, (hi - bot) // cap)
+            cands.append(range(bot, hi + 1, step))
+    for r in cands:
+        for n in r:
+            if bad(n):
+                return n
+    return None
+
+
+def rule_jeaiii(col, facts):
+    """TBL-jeaiii: every `n*M >> S` digit-extraction multiplier of the decimal writer yields exactly the
+    decimal digits of n on the value range its branch admits (exact interval argument; counter-example
+    search only in the sub-range the closed-form bound does not cover, empty for today's constants)."""
+    if facts.config.startswith("compact"):
+        return
+    R_ = "TBL-jeaiii"
+    WI = "lexical_write_integer::jeaiii::"
+    tmaxes = {"from_u8": (1 << 8) - 1, "from_u16": (1 << 16) - 1, "from_u32": (1 << 32) - 1, "from_u64_impl": (1 << 64) - 1, "from_u128": (1 << 128) - 1}
+    n = 0
+    for name, tmax in tmaxes.items():
+        f = facts.fn(WI + name)
+        for bb, M, S, R, pbits, sp in jeaiii_sites(f):
+            lo, hi = n_interval(f, bb, tmax)
+            D = 100 ** R
+            n += 1
+            key = "%s:[%d,%d]*%d>>%d" % (name, lo, hi if hi < 10 ** 12 else -1, M, S)
+            key = "%s#%d" % (name, sum(1 for o in col.obs if o.rule == R_ and o.config == col.config and o.key.startswith(name + "#")) + 1)
+            if hi * M >= (1 << pbits):
+                col.bad(R_, key, "n*%d overflows the %d-bit product for n up to %d" % (M, pbits, hi), f.loc(sp))
+                continue
+            lead = ((hi * M) >> S) >> 32
+            cx = jeaiii_counterexample(M, S, D, lo, hi)
+            col.check(R_, key, cx is None and lead < 100,
+                      "multiplier %d (>> %d, %d digit pairs after the leading ones) on the range [%d, %d]: for n = %s the extracted digits are not the decimal digits of n (leading part %d)" % (M, S, R, lo, hi, cx, lead), f.loc(sp))
+    col.floor(R_, "jeaiii multiplier sites (%s)" % facts.config, n, 18)
